@@ -221,7 +221,7 @@ def impl_case(case):
     warnings.simplefilter("ignore")
     if case["kind"] == "roles":
         try: return _roles_case(case)
-        except BaseException as e: return {"rejected": type(e).__name__, "msg": str(e)[:160]}
+        except BaseException as e: return {"roles_error": type(e).__name__, "msg": str(e)[:160]}
     try:
         term, M = _build(case["string"], case["via"])
     except BaseException as e:
@@ -283,6 +283,8 @@ def oracle(case, r):
         # rejected at build time (e.g. sympy rewrites Abs(exp(z)) to exp(re(z))) is counted in the evidence, not a violation
         return None
     if case["kind"] == "roles":
+        # every build of this family is well-formed (names declared, supported operators): a failure is not a rejection of a malformed expression
+        if "roles_error" in r: return "value: building / copying / extending a model around the well-formed expression %s failed from inside: %s: %s" % (case["string"], r["roles_error"], r["msg"])
         for b, vals in zip(case["builds"], r["builds"]):
             for pt, v in zip(case["points"], vals):
                 try: want = py_eval(case["tree"], pt["env"], None)
